@@ -67,6 +67,13 @@ func checkC07(c *Ctx) {
 	// a scope leaves the registry only through a checked deletion: the shard maps themselves are never
 	// replaced (a rebuilt map that leaves closed-but-unreported scopes behind drops what they recorded)
 	c.checkSetOnlyAtConstruction("O2 shard-map-fixed", "", "scopeBucket", "s")
+	// a handle to a dropped scope stays a handle to THAT (inert) scope: every scope Subscope hands out is an
+	// entry of the shard map or newly created, never a recycled object (shared with C04 O2 / C05 O1)
+	c.checkSubscopeSource("O8 scope-source")
+	// the passes (also the final one before the purge) visit every shard and every scope - no try-lock that
+	// skips a busy shard (shared with C01 O8)
+	c.checkRegistryPassCoverage("O2 registry-coverage", "Report", "report")
+	c.checkRegistryPassCoverage("O2 registry-coverage", "CachedReport", "cachedReport")
 
 	// ---- O5 ------------------------------------------------------------------------------------------
 	c.checkLockPairing("O5 lock-pairing", []string{""}, eng, 12)
